@@ -27,7 +27,9 @@ class C08(Prop):
             "child's answer overtakes the broadcast'; "
             "filters: 1-2, mostly wide, limit 0..4 in 60%; in every tier 24 histories with many children (31, 32, 33, 63, 64, 65, "
             "66, 70 children: one REQ, every child but one sends 'sometimes an event, EOSE' in random order, the remaining "
-            "child — the first, the last, a random one — answers last, then a live event); n/10 more histories in which ONE "
+            "child — the first, the last, a random one — answers last, then a live event); in every tier 4 histories with very "
+            "many stored events of ONE created_at (130, 520, 1030, 2060 distinct events from child 0, its EOSE, then six of them "
+            "again from child 1 — the first three, the middle one, the last, a random one — and its EOSE: every repeat is to be dropped); n/10 more histories in which ONE "
             "handler value serves 2-3 sessions, each with a history of its own from the same generator (same subscription "
             "ids, overlapping event pools), interleaved at random and judged session by session; non-trivial = the merged EOSE was emitted and before it at "
             "least one event was forwarded and one dropped; distinct = distinct JSON of the inputs")
@@ -87,7 +89,7 @@ class C08(Prop):
         d = {"histories": len(cases), "children_2": 0, "children_3": 0, "children_4": 0, "steps": 0,
              "client_req": 0, "client_close": 0, "child_eose": 0, "merged_eose": 0, "child_event": 0,
              "events_forwarded": 0, "events_dropped": 0, "histories_with_31_or_more_children": 0,
-             "histories_with_65_or_more_children": 0, "histories_with_2_sessions": 0, "histories_with_3_sessions": 0,
+             "histories_with_65_or_more_children": 0, "histories_with_over_1024_events_of_one_timestamp": 0, "histories_with_2_sessions": 0, "histories_with_3_sessions": 0,
              "failed_runs": 0, "child_messages_overtaking_a_client_broadcast": 0, "of_which_after_a_close": 0}
         for c in cases:
             prev = None
@@ -102,6 +104,9 @@ class C08(Prop):
                 d["failed_runs"] += 1
             if c["n"] >= 31:
                 d["histories_with_31_or_more_children"] += 1
+            ev_steps = [st for st in (c.get("steps") or []) if st["k"] == "child" and st["m"]["t"] == "event"]
+            if len(ev_steps) > 1024 and len(set(st["m"]["e"]["ts"] for st in ev_steps)) == 1:
+                d["histories_with_over_1024_events_of_one_timestamp"] += 1
             if c["n"] >= 65:
                 d["histories_with_65_or_more_children"] += 1
             if mc.nsessions(c) > 1:
